@@ -43,6 +43,8 @@ func vCoreTables() []vTable {
 		/* 29 */ one("/a/", g("/"), g("/b")),
 		/* 30 */ one("/t", g("/a b/{v}"), g("/c,d")),
 		/* 31 */ one("/t", g("/a/b"), g("/a/{v:[a-z]+}")),
+		/* 32 */ one("/t", vRoute{method: "GET", path: "/a", produces: vAX}, vRoute{method: "POST", path: "/a", produces: vAJ}),
+		/* 33 */ one("/t", vRoute{method: "POST", path: "/a", consumes: vAJ}, vRoute{method: "GET", path: "/a", consumes: vAX}),
 	}
 }
 
